@@ -12,6 +12,8 @@ import TexcraftModel.Model.C18
       tok   : tokens of the real text = `printCalls (lower l)`            (I vs M)
       spec  : `parseToks` of the real text's tokens = the original list    (S on real output)
       model : `parseToks (printNodes l)` = the original list               (M vs S)
+      repr  : `reprList` (token-level representable); nspec: `parseToks` of the real text's
+              tokens = `normList l` (what printing forgets, S on real output)
 * `src | <code points of a source> | <code points of the real format(source), or ->`
     → `H=<ok nodes|err|uns> | V=<…> | fmt=<1/0/na>`
       fmt: tokens of the real formatted text = `formatToks (lex source)`   (I vs M)
@@ -143,19 +145,19 @@ def handleRt (m : Mode) (style : Nat) (l : List Node) (txt : Option (List Char))
   let model := match parseToks m mtoks with
     | some l' => sameNodes l' l
     | none => false
-  let (lexs, tok, spec) :=
+  let repr := reprList m l
+  let (lexs, tok, spec, nspec) :=
     match txt with
-    | none => ("na", false, false)
+    | none => ("na", false, false, false)
     | some t =>
       match lex t with
       | .ok toks =>
-        ("ok", decide (toks = mtoks),
-          match parseToks m toks with
-          | some l' => sameNodes l' l
-          | none => false)
-      | .err => ("err", false, false)
-      | .unsupported => ("uns", false, false)
-  s!"expr={b2i expr} lex={lexs} tok={b2i tok} spec={b2i spec} model={b2i model}"
+        match parseToks m toks with
+        | some l' => ("ok", decide (toks = mtoks), sameNodes l' l, sameNodes l' (normList l))
+        | none => ("ok", decide (toks = mtoks), false, false)
+      | .err => ("err", false, false, false)
+      | .unsupported => ("uns", false, false, false)
+  s!"expr={b2i expr} lex={lexs} tok={b2i tok} spec={b2i spec} model={b2i model} repr={b2i repr} nspec={b2i nspec}"
 
 def handleSrc (src : List Char) (fmt : Option (List Char)) : String :=
   let h := showRes (parseText .H src)
